@@ -78,6 +78,7 @@ type Exec struct {
 	specOld *State
 	callArgs []Term
 	callRecv Term
+	lastGiven map[string][]designator
 }
 
 func (e *Exec) fr() *frame { return e.frames[len(e.frames)-1] }
